@@ -25,7 +25,7 @@ build_coq() {
 build_extract() {
   cd "$ROOT/coq" || exit 1
   mkdir -p extract/gen
-  if [ ! -x extract/gen/driver ] || [ theories/Run.vo -nt extract/gen/driver ] || [ extract/driver.ml -nt extract/gen/driver ] || [ extract/Extract.v -nt extract/gen/driver ]; then
+  if [ ! -x extract/gen/driver ] || [ spec/Main.vo -nt extract/gen/driver ] || [ extract/driver.ml -nt extract/gen/driver ] || [ extract/Extract.v -nt extract/gen/driver ]; then
     ( cd extract/gen && rm -f model.ml model.mli driver && \
       coqc -Q ../../theories GT -Q ../../spec GTS ../Extract.v > "$ROOT/work/extract.log" 2>&1 && \
       rm -f ../Extract.vo ../Extract.glob ../Extract.vok ../Extract.vos ../.Extract.aux && \
